@@ -3,7 +3,16 @@
 #define OUTPUT_MACROS_H
 #include "options_c.h"
 size_t __CPROVER_uninterpreted_ntc(size_t col, unsigned tabsize, unsigned frag_cols);
+#ifdef NTC_TABLE
+/* the same function as a ghost table indexed by the column (tab size and fragment offset are not in any frame of
+ * this kernel, hence constant during one proof): a table read is side-effect free and may appear in loop
+ * invariants, an uninterpreted-function application may not (goto-instrument rejects it).  The table has no
+ * definition, i.e. it is an arbitrary function of the column. */
+extern size_t g_ntc_tab[__CPROVER_constant_infinity_uint];   /* no definition anywhere: an extern object without definition is nondeterministic */
+#define NTC(col) g_ntc_tab[(col)]
+#else
 #define NTC(col) __CPROVER_uninterpreted_ntc((col), optv_output_tab_size, CPD(frag_cols))
+#endif
 extern size_t g_ac_n, g_ac_K;
 extern unsigned g_ac_ch_at_K;
 extern _Bool  g_ac_lit_at_K;
